@@ -27,7 +27,9 @@ type Scenario struct {
 
 const CallA, CallB = "N0AAA", "N0BBB"
 
-var motdLines = []string{"Welcome to the exercise node", "MOTD: have a nice day", "Stats Total connects = 2580 Total messages = 3900", "line with > inside it", "73 de " + CallA}
+var motdLines = []string{"Welcome to the exercise node", "MOTD: have a nice day", "Stats Total connects = 2580 Total messages = 3900", "line with > inside it", "73 de " + CallA,
+	// banner lines that begin with asterisks (a CMS sends its statistics that way; sysops decorate): during the handshake they are text, not errors
+	"*** MTD Stats Total connects = 2580 Total messages = 3900", "*** Sysop: Bob, QTH: Oslo", "* * * net on Sundays 19:00 * * *", "*** Welcome ***"}
 
 // GenScenario draws a scenario. nMax bounds the number of messages per direction.
 func GenScenario(r *rand.Rand, nMax int) (*Scenario, error) {
@@ -146,14 +148,21 @@ func (sc *Scenario) Describe() map[string]any {
 // fault enumeration): 0..nMax small messages each way, accept/defer policies only (a reject then
 // always means "the receiver already holds it").
 func GenSmallScenario(r *rand.Rand, nMax int, withDefer bool) (*Scenario, error) {
-	sc := &Scenario{Policy: map[string]fbb.ProposalAnswer{}, Truth: map[string][]byte{}}
-	sc.MasterIsA = r.Intn(2) == 0
-	sc.BatchedA, sc.BatchedB = r.Intn(2) == 0, r.Intn(2) == 0
-	sc.Seg = []int{0, 3}[r.Intn(2)]
+	master := r.Intn(2) == 0
 	na, nb := r.Intn(nMax+1), r.Intn(nMax+1)
 	if na+nb == 0 {
 		na = 1
 	}
+	return GenShapedScenario(r, master, na, nb, withDefer)
+}
+
+// GenShapedScenario: like GenSmallScenario with the session structure given: who is master and how many messages each
+// station has queued (0 = that station's turns are FF; more than five = several blocks).
+func GenShapedScenario(r *rand.Rand, masterIsA bool, na, nb int, withDefer bool) (*Scenario, error) {
+	sc := &Scenario{Policy: map[string]fbb.ProposalAnswer{}, Truth: map[string][]byte{}}
+	sc.MasterIsA = masterIsA
+	sc.BatchedA, sc.BatchedB = r.Intn(2) == 0, r.Intn(2) == 0
+	sc.Seg = []int{0, 3}[r.Intn(2)]
 	gen := func(n int, prefix, from, to string) ([]MsgSpec, error) {
 		var out []MsgSpec
 		for i := 0; i < n; i++ {
